@@ -308,6 +308,8 @@ def main(tier):
             for i, c in enumerate(THOROUGH):
                 exhaustive_table(chk, c, f"thorough{i}")
             random_histories(chk, 300000, chk.seed)
+            from . import suite
+            suite.validate_suite(chk, "C01")
             chk.cov["constants"] = {"thorough": [{k: sorted(v) if isinstance(v, set) else v for k, v in c.items()}
                                                  for c in [full] + THOROUGH]}
         chk.cov["exhaustive"] = True
